@@ -18,7 +18,7 @@ except ImportError:  # pragma: no cover
 from .model import AnalysisError
 
 MAXCH = 0x110000
-ALLOWED_FLAGS = re.X | re.U
+ALLOWED_FLAGS = re.X | re.U | re.I
 
 
 def parse(pattern: str, flags: int = 0):
@@ -30,7 +30,37 @@ def parse(pattern: str, flags: int = 0):
         raise AnalysisError('cannot parse regex %r: %s' % (pattern, e))
 
 
-def _boundaries(tree, out: Set[int]):
+_LOWER_CLASSES: Dict[int, Set[int]] = {}
+
+
+def case_variants(cp: int) -> Set[int]:
+    """code points that `re` with IGNORECASE treats like cp (same lower-case form, plus sre's special-case fixes)"""
+    if not _LOWER_CLASSES:
+        for x in range(MAXCH):
+            lo = ord(chr(x).lower()) if len(chr(x).lower()) == 1 else x
+            _LOWER_CLASSES.setdefault(lo, set()).add(x)
+        try:
+            from re._compiler import _ignorecase_fixes as fixes
+        except Exception:   # pragma: no cover
+            fixes = {}
+        for k, vs in fixes.items():
+            grp = set(vs) | {k}
+            for g in list(grp):
+                grp |= _LOWER_CLASSES.get(g, set())
+            for g in grp:
+                _LOWER_CLASSES[g] = set(grp) | _LOWER_CLASSES.get(g, set())
+    lo = ord(chr(cp).lower()) if len(chr(cp).lower()) == 1 else cp
+    return set(_LOWER_CLASSES.get(lo, {cp})) | {cp}
+
+
+def _boundaries(tree, out: Set[int], icase: bool = False):
+    if icase:
+        tmp: Set[int] = set()
+        _boundaries(tree, tmp, False)
+        out |= tmp
+        for op, av in tree:
+            _icase_points(op, av, out)
+        return
     for op, av in tree:
         if op is sre_c.LITERAL or op is sre_c.NOT_LITERAL:
             out.update((av, av + 1))
@@ -61,6 +91,33 @@ def _boundaries(tree, out: Set[int]):
             raise AnalysisError('unsupported regex construct %s' % (op,))
 
 
+def _icase_points(op, av, out: Set[int]):
+    if op is sre_c.LITERAL or op is sre_c.NOT_LITERAL:
+        for v in case_variants(av):
+            out.update((v, v + 1))
+    elif op is sre_c.IN:
+        for o2, a2 in av:
+            if o2 is sre_c.LITERAL:
+                for v in case_variants(a2):
+                    out.update((v, v + 1))
+            elif o2 is sre_c.RANGE:
+                if a2[1] - a2[0] > 1024:
+                    raise AnalysisError('case-insensitive range too large')
+                for c in range(a2[0], a2[1] + 1):
+                    for v in case_variants(c):
+                        out.update((v, v + 1))
+    elif op is sre_c.BRANCH:
+        for alt in av[1]:
+            for o2, a2 in alt:
+                _icase_points(o2, a2, out)
+    elif op is sre_c.SUBPATTERN:
+        for o2, a2 in av[3]:
+            _icase_points(o2, a2, out)
+    elif op in (sre_c.MAX_REPEAT, sre_c.MIN_REPEAT):
+        for o2, a2 in av[2]:
+            _icase_points(o2, a2, out)
+
+
 class Alphabet:
     """Partition of the code points into intervals on which every pattern in play is uniform."""
 
@@ -70,7 +127,7 @@ class Alphabet:
         for pat, fl in patterns:
             t = parse(pat, fl)
             self.trees[(pat, fl)] = t
-            _boundaries(t, b)
+            _boundaries(t, b, bool(fl & re.I))
         for ch in extra_chars:
             b.update((ord(ch), ord(ch) + 1))
         pts = sorted(x for x in b if 0 <= x <= MAXCH)
@@ -113,11 +170,28 @@ class Alphabet:
         return ''.join(self.rep(c) for c in classes)
 
     # ---- NFA construction -----------------------------------------------------------------------
-    def _nfa(self, tree):
+    def _nfa(self, tree, icase=False):
         nfa = _NFA()
         s = nfa.new()
+        self._icase = icase
         f = self._build(tree, nfa, s)
         return nfa, s, f
+
+    def _lit(self, cp: int) -> Set[int]:
+        if getattr(self, '_icase', False):
+            out = set()
+            for v in case_variants(cp):
+                out |= self.classes_of_range(v, v)
+            return out
+        return self.classes_of_range(cp, cp)
+
+    def _rng(self, lo: int, hi: int) -> Set[int]:
+        if getattr(self, '_icase', False):
+            out = set()
+            for c in range(lo, hi + 1):
+                out |= self._lit(c)
+            return out
+        return self.classes_of_range(lo, hi)
 
     def _set_classes(self, items) -> Set[int]:
         neg = False
@@ -126,9 +200,9 @@ class Alphabet:
             if o2 is sre_c.NEGATE:
                 neg = True
             elif o2 is sre_c.LITERAL:
-                acc |= self.classes_of_range(a2, a2)
+                acc |= self._lit(a2)
             elif o2 is sre_c.RANGE:
-                acc |= self.classes_of_range(a2[0], a2[1])
+                acc |= self._rng(a2[0], a2[1])
             else:
                 raise AnalysisError('unsupported regex class item')
         return set(range(self.n)) - acc if neg else acc
@@ -138,11 +212,11 @@ class Alphabet:
         for op, av in tree:
             if op is sre_c.LITERAL:
                 nxt = nfa.new()
-                nfa.trans[cur].append((frozenset(self.classes_of_range(av, av)), nxt))
+                nfa.trans[cur].append((frozenset(self._lit(av)), nxt))
                 cur = nxt
             elif op is sre_c.NOT_LITERAL:
                 nxt = nfa.new()
-                nfa.trans[cur].append((frozenset(set(range(self.n)) - self.classes_of_range(av, av)), nxt))
+                nfa.trans[cur].append((frozenset(set(range(self.n)) - self._lit(av)), nxt))
                 cur = nxt
             elif op is sre_c.ANY:
                 nxt = nfa.new()
@@ -198,7 +272,7 @@ class Alphabet:
         key = (pattern, flags)
         if key not in self.trees:
             raise AnalysisError('pattern was not declared to the alphabet: %r' % pattern)
-        nfa, s, f = self._nfa(self.trees[key])
+        nfa, s, f = self._nfa(self.trees[key], bool(flags & re.I))
         # prefix semantics: after the pattern is satisfied without an end assertion, anything follows
         loop = nfa.new()
         final = nfa.new()
